@@ -27,13 +27,22 @@ Proof.
     rewrite ?cnt_seq1, ?cnt_seq0, ?cnt_nil; lia.
 Qed.
 
+Lemma regrown_obj_ok : forall grow own kids n own' kids' k rem, regrown_obj grow own kids n = (own', kids', k, rem) ->
+  forall x, cnt x (flat_map blocks kids') + cnt x own' + cnt x rem = cnt x (flat_map blocks kids) + cnt x own + cnt x (seq n k).
+Proof.
+  intros grow own kids n own' kids' k rem H x. unfold regrown_obj in H. destruct grow; injection H as <- <- <- <-.
+  - pose proof (cnt_flat_map_filter blocks is_tomb_slot x kids) as Hf. unfold live_slots, tomb_blocks.
+    rewrite !cnt_app, cnt_seq1. lia.
+  - rewrite cnt_seq0, cnt_nil. lia.
+Qed.
+
 Lemma f_insert_ok : forall key grow, local_ok (f_insert key grow).
 Proof.
   intros key grow n c c' k rem H x. unfold f_insert in H. destruct c as [t own kids].
   destruct t; try (injection H as <- <- <-; cnt_norm; cbn [seq]; rewrite ?Nat.add_1_r; rewrite ?cnt_cons, ?cnt_nil; lia).
-  destruct (has_key key kids); [injection H as <- <- <-; cnt_norm; lia|].
-  destruct (grown grow own n) as ((own', k0), rem0) eqn:Eg. injection H as <- <- <-.
-  pose proof (grown_ok _ _ _ _ _ _ Eg x) as Hg. cnt_norm. rewrite cnt_seq_app, cnt_seq1. lia.
+  destruct (regrown_obj (match own with [] => negb (has_key key kids) | _ => grow end) own kids n) as (((own', kids'), k0), rem0) eqn:Eg.
+  pose proof (regrown_obj_ok _ _ _ _ _ _ _ _ Eg x) as Hg.
+  destruct (has_key key kids); injection H as <- <- <-; cnt_norm; [lia|]. rewrite cnt_seq_app, cnt_seq1. lia.
 Qed.
 
 Lemma f_append_ok : forall grow, local_ok (f_append grow).
@@ -171,10 +180,9 @@ Proof.
     rewrite cnt_seq_app. replace (n + (n1 - n)) with n1 by lia. cnt_norm. lia.
   - (* object += object *)
     destruct (merge_copy n skids kids) as ((kids', n1), rel) eqn:Em. destruct (merge_copy_ok _ _ _ _ _ _ Em) as (Hle & Hc).
-    specialize (Hc x). destruct (length kids <? length kids').
-    + destruct (grown grow own n1) as ((own', k0), rem0) eqn:Eg. injection H as <- <- <-.
-      pose proof (grown_ok _ _ _ _ _ _ Eg x) as Hg. cnt_norm. rewrite cnt_seq_app. replace (n + (n1 - n)) with n1 by lia. lia.
-    + injection H as <- <- <-. cnt_norm. lia.
+    specialize (Hc x).
+    destruct (regrown_obj grow own kids' n1) as (((own', kids''), k0), rem0) eqn:Eg. injection H as <- <- <-.
+    pose proof (regrown_obj_ok _ _ _ _ _ _ _ _ Eg x) as Hg. cnt_norm. rewrite cnt_seq_app. replace (n + (n1 - n)) with n1 by lia. lia.
 Qed.
 
 Lemma g_merge_move_ok : forall grow, absorb_ok (g_merge_move grow).
@@ -192,8 +200,6 @@ Proof.
       pose proof (grown_ok _ _ _ _ _ _ Eg x) as Hg. cnt_norm. lia.
   - (* object += Move(object) *)
     destruct (merge_move skids kids) as (kids', rel) eqn:Em. pose proof (merge_move_ok _ _ _ _ Em x) as Hc.
-    destruct (length kids <? length kids').
-    + destruct (grown grow own n) as ((own', k0), rem0) eqn:Eg. injection H as <- <- <-.
-      pose proof (grown_ok _ _ _ _ _ _ Eg x) as Hg. cnt_norm. lia.
-    + injection H as <- <- <-. cnt_norm. lia.
+    destruct (regrown_obj grow own kids' n) as (((own', kids''), k0), rem0) eqn:Eg. injection H as <- <- <-.
+    pose proof (regrown_obj_ok _ _ _ _ _ _ _ _ Eg x) as Hg. cnt_norm. lia.
 Qed.
